@@ -12,7 +12,7 @@
    session, what is stated of the final state holds after every operation. *)
 From Coq Require Import ZArith List Bool.
 Import ListNotations.
-From Urwid Require Import PyBase PyList vterm_csi_gen VTerm VT100Ref VTermRefine VTermListFacts VTermProofs VTermParse VTermSim VTermSimB VTermSimC VTermSimD VTermSimF VTermSimSgr VTermSim2.
+From Urwid Require Import PyBase PyList vterm_csi_gen VTerm VT100Ref VTermRefine VTermListFacts VTermProofs VTermParse VTermSim VTermSimB VTermSimC VTermSimD VTermSimF VTermSimSgr VTermSimO VTermSim2.
 Open Scope Z_scope.
 
 (* --- clause 1: never raises; the grid is exactly height x width (so is the view handed to the renderer,
@@ -87,16 +87,18 @@ Print Assumptions scrolled_back_view.
 
 (* --- clause 2: equality with the reference VT100 (Model/VT100Ref.v, written from the VT100 behaviour, not from
        vterm.py) on the subset of the property: printable text with autowrap (incl. the last-column flag),
-       CR LF BS HT, CUP CUU CUD CUF CUB, EL ED, ICH DCH IL DL, DECSTBM, RI, the classic SGR renditions and
-       colours, DSR, and the character sets (SO / SI, ESC ( 0 / ESC ( B / ESC ) 0 / ESC ) B: every cell carries the
+       CR LF BS HT, CUP VPA CUU CUD CUF CUB, EL ED, ICH DCH IL DL, DECSTBM, origin mode (DECOM: ESC[?6h / ESC[?6l -
+       CUP / VPA lines count from the top margin and stay inside the margins, the cursor stops at the margins, CPR
+       reports the line relative to the top margin, DECSTBM / DECOM home to the origin, ED / EL are not confined),
+       RI, SGR, DSR, and the character sets (SO / SI, ESC ( 0 / ESC ( B / ESC ) 0 / ESC ) B: every cell carries the
        set - ASCII or DEC special graphics - it was written in) - any command list, any mixture, any terminal size, any parameters below 2^4000 (int()
        refuses more than 4300 digits; the emulator then falls back to the default, by design).
        [cmd_ok] bounds the parameter domains (printable 0x20-0x7E, EL/ED mode <= 2, classic SGR values, DSR 5/6);
        [unambiguous] stops before the points on which terminals of the VT100 family themselves differ (LF / RI /
-       HT with the last-column flag set, CUU / CUD across a margin of a partial scrolling region, SO before G1 was ever
-       designated).
+       HT with the last-column flag set, CUU / CUD across a margin of a partial scrolling region while origin mode is
+       off, SO before G1 was ever designated).
        After feeding the byte encoding of the commands the emulator's screen contents (characters and renditions),
-       cursor and scrolling region equal the reference's ([agrees]).  The feed may be chunked in any way
+       cursor, scrolling region and origin mode equal the reference's ([agrees]).  The feed may be chunked in any way
        (chunking_irrelevant).  Proof: the parser reads the decimal encoding back exactly (Proofs/VTermParse.v),
        every command preserves the relation R between the two states (Proofs/VTermSim.v), induction over the list.
        [agrees_history]: the answers written to the host are exactly the reference's (DSR 5 -> ESC[0n, DSR 6 ->
@@ -160,7 +162,7 @@ Print Assumptions scrolled_view_cursor_inside.
 Definition agree_on (w h : Z) (cs : list cmd) : bool :=
   unambiguous (vt_init w h) cs &&
   match run (init w h 1) [Feed (enc_cmds cs)] with
-  | Ok s => agrees s (run_ref (vt_init w h) cs)
+  | Ok s => agrees s (run_ref (vt_init w h) cs) && agrees_history s (run_ref (vt_init w h) cs)
   | Err _ => false
   end.
 Definition text (l : list Z) : list cmd := map CCh l.
@@ -183,6 +185,12 @@ Proof. vm_compute. reflexivity. Qed.
 Example refines_colour_forms :
   agree_on 7 2 ([CSgr [38; 5; 196]; CCh 97; CSgr [48; 2; 1; 2; 3]; CCh 98; CSgr [31]; CCh 99; CSgr [39; 49]; CSgr [1; 32]; CCh 100;
                  CSgr [0; 1; 38; 5; 3; 4]; CCh 101; CSgr [38; 2; 255; 255; 255; 48; 5; 255; 7]; CCh 102; CSgr []; CCh 103]) = true.
+Proof. vm_compute. reflexivity. Qed.
+Example refines_origin_mode :
+  agree_on 4 4 (text [97; 97; 97; 97] ++ [CCr; CLf] ++ text [98; 98; 98; 98] ++ [CCr; CLf] ++ text [99; 99; 99; 99] ++ [CCr; CLf]
+                ++ text [100; 100; 100; 100]
+                ++ [CStbm 2 3; CDecom true; CDsr 6; CCup 9 9; CDsr 6; CCuu 5; CEd 0; CVpa 2; CCh 120; CCud 7; CLf; CCup 1 2; CEd 1;
+                    CStbm 3 4; CDsr 6; CRi; CDecom false; CDsr 6; CVpa 4; CCh 121; CDecom true; CCh 122; CEl 2]) = true.
 Proof. vm_compute. reflexivity. Qed.
 Example refines_mixed :
   agree_on 5 3 ([CSgr [1; 31]; CCh 97; CSgr [0; 44]; CCh 98; CCup 9999 9999; CCh 99; CCh 100; CEl 1; CRi; CRi; CRi;
